@@ -9,7 +9,7 @@ edit history (`history_ok`) — provided the clone does not share cells with the
 is false: `rejected_is_noop_witness`.
 -/
 import MtxVerif.Model.C12
-import MtxVerif.Gen.C11
+import MtxVerif.Gen.C12
 
 namespace MtxVerif.C12
 
@@ -358,7 +358,7 @@ theorem read_back_field (d : Rec) (n : Name) (r : Rec) (k : Key) (hk : k ≠ "na
 
 /-- the clone shares `OptionalPath.Values` with the running configuration iff `deepClone` has no Interface
 case (regenerated from the source by tools/xlate/c11) -/
-def genShared : Bool := !Gen.C11.caseInterface
+def genShared : Bool := !Gen.C12.caseInterface
 
 /-! #### non-vacuity -/
 
